@@ -371,8 +371,8 @@ Section Bnd.
     destruct (_ =? IndentedCodeBlockKind).
     { unfold matchIndented. cbv zeta. destruct (_ <? _); [destruct (negb _)|]; cbn [snd]; try apply bndP_consumeIndent; assumption. }
     destruct (_ =? HTMLBlockKind).
-    { unfold matchHTML. destruct (htmlEnd _ _); [|assumption]. cbn [snd]. apply bndP_consumeLine.
-      destruct (negb _); [apply bndP_collectInline; [assumption|discriminate]|assumption]. }
+    { unfold matchHTML. destruct (htmlEnd _ _); [|assumption]. destruct (isRestBlank _); [assumption|]. cbn [snd]. apply bndP_consumeLine.
+      apply bndP_collectInline; [assumption|discriminate]. }
     assumption.
   Qed.
   Lemma bndP_descend_loop : forall fuel p d, bndP p -> bndP (snd (descend_loop fuel p d)).
